@@ -122,7 +122,7 @@ Lemma template_is_escape ver phone : digits phone ->
 Proof.
   intros H. unfold template, escape. f_equal. rewrite flat_map_app. cbn [flat_map]. rewrite app_nil_r.
   rewrite <- app_assoc. f_equal.
-  - symmetry. apply okbytes_noesc. unfold template_payload.
+  { symmetry. apply okbytes_noesc. unfold template_payload.
     assert (K : forall x, x < 100 -> okbyte x) by (unfold okbyte; intros; lia).
     fold (padded ver phone). unfold phone_bcd.
     destruct (ver =? V2019) eqn:E.
@@ -131,8 +131,7 @@ Proof.
       * repeat (apply Forall_cons; [apply K; lia|]). constructor.
     + repeat (apply Forall_cons; [apply K; lia|]). apply Forall_app. split.
       * pose proof (phone_bcd_ok ver phone H) as P. unfold phone_bcd in P. rewrite E in P. exact P.
-      * repeat (apply Forall_cons; [apply K; lia|]). constructor.
-  - reflexivity.
+      * repeat (apply Forall_cons; [apply K; lia|]). constructor. }
 Qed.
 
 Lemma with_header_ok ver phone : digits phone -> (length phone <= maxlen ver)%nat ->
@@ -213,7 +212,6 @@ Proof.
     + apply padded_strip0.
     + now apply padded_digits.
     + rewrite (padded_length ver phone Hl). destruct (ver =? V2019); reflexivity.
-  - f_equal. lia.
 Qed.
 
 (* the serial of a frame is one greater than that of the previous frame, wrapping after 65535 *)
@@ -249,6 +247,7 @@ Lemma reply_body_state_indep s1 s2 m :
   snd (reply_body (kind_of_id (m_id m)) s1 m) = snd (reply_body (kind_of_id (m_id m)) s2 m).
 Proof.
   intros Hk Hw. destruct (kind_of_id (m_id m)) eqn:K; try reflexivity.
+  - cbn [reply_body]. destruct (auth_code m); reflexivity.
   - congruence.
   - apply kind_file in K. unfold body_wf in Hw. rewrite K in Hw.
     change (4626 =? 2049) with false in Hw. change (4626 =? 4626) with true in Hw. cbv iota in Hw.
@@ -284,12 +283,44 @@ Proof.
   rewrite writes_cb2. repeat split.
   unfold expected_reply. rewrite Hdec, SL. cbn [snd]. rewrite T4.
   assert (NM : kind_of_id (m_id (d_m d)) <> RMedia).
-  { intros E. rewrite <- T4, E in T5. discriminate. }
+  { intros E. rewrite T4, E in T5. discriminate. }
   rewrite (reply_body_state_indep (t_h t) (c_h c) (d_m d) NM Hw), Hb. cbn [snd].
   reflexivity.
 Qed.
 
+(* a 2019 authentication too short for its fixed fields: nothing predicted, nothing sent *)
+Theorem expected_no_reply_too_short t c d q f seq :
+  decode f = Ok (d_m d) -> c_q c = d :: q -> m_id (d_m d) = 0x0102 ->
+  auth_too_short (d_m d) = true ->
+  writes (snd (step c MReply)) = [] /\ snd (expected_reply t seq f) = None.
+Proof.
+  intros Hdec Hq Hid Hs. split.
+  - pose proof (writer_reply_spec c d q Hq) as S.
+    assert (A : answered d = false).
+    { unfold answered. rewrite Hs. destruct (std_reply_id (m_id (d_m d))); now rewrite andb_false_r. }
+    rewrite A in S. destruct S as (h' & Hw & _). cbn [step]. rewrite Hw. reflexivity.
+  - unfold expected_reply. rewrite Hdec, Hid. change (sim_lookup 258) with (Some (0x8001, RAuth)).
+    cbn [snd]. pose proof (reply_body_none 258 (t_h t) (d_m d) Hid) as [_ N].
+    change (kind_of_id 258) with RAuth in N. now rewrite (N Hs).
+Qed.
+
+(* NOT repaired (known finding C20/expected-reply-malformed-1212): T0x1212.ReplyBody ignores the
+   error of its Parse and answers from what the handler instance parsed before - the simulator's
+   instance is preset with "123_aaa.jpg", a server connection's is empty: on a 0x1212 whose body is
+   not a well-formed file record the prediction differs from what a fresh connection sends *)
+Definition ex_bad_1212 : list N := encode (sim_hdr V2013 [1]) 0x1212 1 [1; 2].
+
+Lemma refuted_expected_reply_malformed_1212 :
+  exists m, decode ex_bad_1212 = Ok m /\ m_id m = 0x1212 /\ body_wf m = false /\
+    let d := {| d_m := m; d_complete := false; d_data := ex_bad_1212 |} in
+    exists w, writes (snd (step (final (init [d]) [MLook; MSend]) MReply)) = [w] /\
+      snd (expected_reply (sim0 V2013 [1]) 0 ex_bad_1212) <> Some (wire_bytes w).
+Proof.
+  eexists. split. vm_compute. reflexivity. split. reflexivity. split. reflexivity.
+  eexists. split. vm_compute. reflexivity. vm_compute. discriminate.
+Qed.
+
 (* non-vacuity: phones whose template checksum needs escaping exist, and a generated frame *)
 Lemma example_template_escapes :
-  xor_all (template_payload V2013 [1; 2; 7]) = 126 /\ xor_all (template_payload V2013 [1; 2; 4]) = 125.
+  xor_all (template_payload V2013 [7; 5; 0; 9]) = 126 /\ xor_all (template_payload V2013 [7; 8; 0; 7]) = 125.
 Proof. split; vm_compute; reflexivity. Qed.
